@@ -2,7 +2,8 @@ import MypyVerif.Model.Reach
 /-!
 Line-protocol driver for the reachability model (model file only).
 
-  <platform> <always_true,…|-> <always_false,…|-> | <cond> | <entry> ; <entry> ; …
+  <platform> <always_true,…|-> <always_false,…|-> fix=<0|1> | <cond> | <entry> ; <entry> ; …
+      fix    = which consider_sys_version_info is modelled (1: with the open-ended-slice rule of proposed_fix_F4)
       entry  = <target> ~ <name>=<1|0|x> … ~ <name>=<1|0|x> … ~ <k>=<1|0|x> … ~ <k>=<1|0|x> …
                (measured truth of the names at run time / with TYPE_CHECKING = MYPY = True, then of the opaque
                 leaves at run time / with TYPE_CHECKING = MYPY = True; x = evaluating it raises)
@@ -90,7 +91,7 @@ def step (line : String) : String :=
   match line.splitOn "|" with
   | [opts, cond, entries] =>
     match words opts, (pCond.run (words cond)) with
-    | [plat, atr, afa], some (c, []) =>
+    | [plat, atr, afa, fix], some (c, []) =>
       let res := (entries.splitOn ";").map fun e =>
         match e.splitOn "~" with
         | [t, names, namesMt, opqRt, opqMt] =>
@@ -102,7 +103,7 @@ def step (line : String) : String :=
               let oq := parseBoolMap opqRt
               let oq2 := parseBoolMap opqMt
               let o : Options := { major := ma, minor := mi, platform := if plat == "%" then "" else plat,
-                                   alwaysTrue := csv atr, alwaysFalse := csv afa }
+                                   alwaysTrue := csv atr, alwaysFalse := csv afa, openSliceFix := fix == "fix=1" }
               let env : Env := { versionInfo := [.int ma, .int mi, .int mc, .str lv, .int se], platform := o.platform,
                                  names := fun n => (nm.lookup n).join, opq := fun k => (oq.lookup (toString k)).join }
               let nm2 := parseBoolMap namesMt
